@@ -322,6 +322,14 @@ fn scan_comments2(src: &str) -> (Vec<String>, bool) {
 /// (comments, a comment lies inside a hole, byte offset of each comment,
 ///  a comment lies inside the brackets of a `=pattern` match term)
 fn scan_comments3(src: &str) -> (Vec<String>, bool, Vec<usize>, bool) {
+    let r = scan_comments4(src);
+    (r.0, r.1, r.2, r.3)
+}
+/// as scan_comments3, plus: a comment lies inside a `[ ]` that holds nothing but commas and comments
+fn scan_comments4(src: &str) -> (Vec<String>, bool, Vec<usize>, bool, bool, bool) {
+    let mut brackets: Vec<(bool, bool, bool)> = vec![]; // (has code, has comment, is a `! [` source list) per open `[`
+    let mut in_empty_brackets = false;
+    let mut in_select_sources = false;
     let mut in_hole = false;
     let mut offsets = vec![];
     let mut in_match_term = false;
@@ -345,6 +353,12 @@ fn scan_comments3(src: &str) -> (Vec<String>, bool, Vec<usize>, bool) {
                     let text: String = cs[i..j].iter().collect();
                     out.push(text.trim_end().to_string());
                     offsets.push(byte_at[i]);
+                    if let Some(top) = brackets.last_mut() {
+                        top.1 = true;
+                    }
+                    if brackets.iter().any(|b| b.2) {
+                        in_select_sources = true;
+                    }
                     if pat_active && pdepth > 0 {
                         in_match_term = true;
                     }
@@ -353,6 +367,28 @@ fn scan_comments3(src: &str) -> (Vec<String>, bool, Vec<usize>, bool) {
                     }
                     i = j;
                     continue;
+                }
+                if c == '[' {
+                    if let Some(top) = brackets.last_mut() {
+                        top.0 = true;
+                    }
+                    // `! [` (the `!`, horizontal space, then the bracket) opens a select source list
+                    let mut k = i;
+                    while k > 0 && (cs[k - 1] == ' ' || cs[k - 1] == '\t') {
+                        k -= 1;
+                    }
+                    let is_select = k < i && k > 0 && cs[k - 1] == '!';
+                    brackets.push((false, false, is_select));
+                } else if c == ']' {
+                    if let Some((has_code, has_comment, _)) = brackets.pop() {
+                        if !has_code && has_comment {
+                            in_empty_brackets = true;
+                        }
+                    }
+                } else if !c.is_whitespace() && c != ',' {
+                    if let Some(top) = brackets.last_mut() {
+                        top.0 = true;
+                    }
                 }
                 // lexical extent of a `=pattern` match term: from `=` up to whitespace / separator at bracket depth 0
                 if !pat_active
@@ -427,7 +463,7 @@ fn scan_comments3(src: &str) -> (Vec<String>, bool, Vec<usize>, bool) {
             }
         }
     }
-    (out, in_hole, offsets, in_match_term)
+    (out, in_hole, offsets, in_match_term, in_empty_brackets, in_select_sources)
 }
 
 
@@ -997,7 +1033,7 @@ fn e2e(src: &str, with_out: bool) -> String {
             }
         }
     }
-    let (c_in, comment_in_hole, c_offsets, c_in_match) = scan_comments3(src);
+    let (c_in, comment_in_hole, c_offsets, c_in_match, c_in_empty, c_in_select) = scan_comments4(src);
     let binds = bind_spans(&ast_for_sig);
     let comment_in_pattern = c_in_match || c_offsets.iter().any(|o| binds.iter().any(|(a, b)| a <= o && o < b));
     let mut sigs = vec![];
@@ -1051,6 +1087,74 @@ fn e2e(src: &str, with_out: bool) -> String {
     }
     if comment_in_pattern {
         sigs.push("comment-in-pattern");
+    }
+    if c_in_empty {
+        sigs.push("comment-in-empty-brackets");
+    }
+    if c_in_select {
+        sigs.push("comment-in-select-sources");
+    }
+    {
+        // a comment followed, up to the closing bracket, only by commas and further comments
+        let hit = c_offsets.iter().any(|o| {
+            let mut rest = &src[*o..];
+            let mut commas = 0;
+            loop {
+                if rest.starts_with("//") {
+                    rest = rest.find('\n').map_or("", |at| &rest[at..]);
+                }
+                let t = rest.trim_start();
+                if let Some(r) = t.strip_prefix(',') {
+                    commas += 1;
+                    rest = r.trim_start();
+                } else {
+                    rest = t;
+                }
+                if !rest.starts_with("//") && !rest.starts_with(',') {
+                    break;
+                }
+            }
+            commas > 0 && rest.starts_with([']', '}', ')'])
+        });
+        if hit {
+            sigs.push("comment-before-comma-closer");
+        }
+    }
+    {
+        // F31 (residual class): a comment inside the body of a type alias — after the alias name and before the
+        // last code character of the alias (types have no spans; the alias ends where the next statement starts)
+        let starts: Vec<(usize, bool)> = ast_for_sig
+            .statements
+            .iter()
+            .filter_map(|st| match st {
+                Statement::TypeAlias { name_span, .. } => name_span.get().map(|sp| (sp.offset, true)),
+                Statement::Expression(seq) => seq.chains.first().and_then(|c| c.span.get()).map(|sp| (sp.offset, false)),
+            })
+            .collect();
+        let in_comment = |pos: usize| {
+            c_offsets.iter().any(|o| {
+                *o <= pos && pos < src[*o..].find(|c| c == '\n' || c == '\r').map_or(src.len(), |k| o + k)
+            })
+        };
+        let mut hit = false;
+        for (i, (start, is_alias)) in starts.iter().enumerate() {
+            if !is_alias {
+                continue;
+            }
+            let region_end = starts.get(i + 1).map_or(src.len(), |n| n.0);
+            let code_end = src[*start..region_end]
+                .char_indices()
+                .filter(|(k, c)| !c.is_whitespace() && !in_comment(start + k))
+                .map(|(k, _)| start + k)
+                .last()
+                .unwrap_or(*start);
+            if c_offsets.iter().any(|o| start < o && *o < code_end) {
+                hit = true;
+            }
+        }
+        if hit {
+            sigs.push("comment-in-type");
+        }
     }
     {
         // F38: a comment inside a `cond => consequence` branch (or trailing it on the line where it ends)
@@ -1560,6 +1664,141 @@ fn frag_case(case: &Sexp) -> String {
     }
 }
 
+// ------------------------------------------------------------------------------------------
+// FormatFrag2.v: the fragment with blocks. (seq (c t+)+); t adds (b br+); br = (br (q (c t+)+) -|(q (c t+)+))
+// ------------------------------------------------------------------------------------------
+fn frag2_seq_of(s: &Sexp) -> Sequence {
+    Sequence {
+        chains: s.args().iter().map(|c| mk_chain(c.args().iter().map(frag2_term_of).collect())).collect(),
+    }
+}
+fn frag2_term_of(s: &Sexp) -> Term {
+    match s.head() {
+        "b" => Term::Block(Expression {
+            branches: s
+                .args()
+                .iter()
+                .map(|b| Branch {
+                    condition: frag2_seq_of(&b.args()[0]),
+                    consequence: match &b.args()[1] {
+                        Sexp::List(_) => Some(frag2_seq_of(&b.args()[1])),
+                        _ => None,
+                    },
+                })
+                .collect(),
+        }),
+        "t" => {
+            let name = match &s.args()[0] {
+                Sexp::List(l) => TupleName::Named(cps_to_string(&l[1..])),
+                _ => TupleName::Anonymous,
+            };
+            let fields = s.args()[1..]
+                .iter()
+                .map(|f| TupleField {
+                    name: match &f.args()[0] {
+                        Sexp::List(l) => Some(cps_to_string(&l[1..])),
+                        _ => None,
+                    },
+                    name_span: Spanned::default(),
+                    span: Spanned::default(),
+                    value: FieldValue::Chain(mk_chain(f.args()[1..].iter().map(frag2_term_of).collect())),
+                })
+                .collect();
+            Term::Tuple(Tuple { name, fields, span: Spanned::default() })
+        }
+        _ => frag_term_of(s),
+    }
+}
+fn frag2_of_seq(q: &Sequence) -> Option<String> {
+    let mut out = String::from("(q");
+    for c in &q.chains {
+        if c.match_pattern.is_some() {
+            return None;
+        }
+        out.push_str(" (c");
+        for t in &c.terms {
+            out.push(' ');
+            out.push_str(&frag2_of_term(t)?);
+        }
+        out.push(')');
+    }
+    out.push(')');
+    Some(out)
+}
+fn frag2_of_term(t: &Term) -> Option<String> {
+    Some(match t {
+        Term::Block(e) => {
+            let mut out = String::from("(b");
+            for b in &e.branches {
+                out.push_str(&format!(
+                    " (br {} {})",
+                    frag2_of_seq(&b.condition)?,
+                    match &b.consequence {
+                        Some(k) => frag2_of_seq(k)?,
+                        None => "-".to_string(),
+                    }
+                ));
+            }
+            out.push(')');
+            out
+        }
+        Term::Tuple(t) => {
+            let name = match &t.name {
+                TupleName::Anonymous => "-".to_string(),
+                TupleName::Named(n) => format!("(n {})", string_to_cps(n)),
+                TupleName::Inherit => return None,
+            };
+            let mut out = format!("(t {}", name);
+            for f in &t.fields {
+                let FieldValue::Chain(c) = &f.value else { return None };
+                if c.match_pattern.is_some() {
+                    return None;
+                }
+                out.push_str(&format!(
+                    " (f {}",
+                    f.name.as_ref().map_or("-".to_string(), |n| format!("(l {})", string_to_cps(n)))
+                ));
+                for t in &c.terms {
+                    out.push(' ');
+                    out.push_str(&frag2_of_term(t)?);
+                }
+                out.push(')');
+            }
+            out.push(')');
+            out
+        }
+        other => frag_of_term(other)?,
+    })
+}
+fn frag2_back(src: &str) -> String {
+    let s0 = src.to_string();
+    match guarded(move || parse(&s0)) {
+        Err(loc) => format!("(panic {})", quote(&loc)),
+        Ok(Err(_)) => "(err)".to_string(),
+        Ok(Ok(p)) => {
+            let r = match p.statements.as_slice() {
+                [Statement::Expression(seq)] => frag2_of_seq(seq),
+                _ => None,
+            };
+            r.map_or("(other)".to_string(), |c| format!("(ok {})", c))
+        }
+    }
+}
+fn frag2_case(case: &Sexp) -> String {
+    match case.head() {
+        "frag2fmt" => {
+            let seq = frag2_seq_of(&case.args()[0]);
+            let program = Program { statements: vec![Statement::Expression(seq)] };
+            let out = match guarded(move || format_program(&program, "")) {
+                Err(loc) => return format!("(panic {} format)", quote(&loc)),
+                Ok(o) => o,
+            };
+            format!("(frag2 (out {}) (back {}))", string_to_cps(&out), frag2_back(&out))
+        }
+        _ => format!("(frag2 (back {}))", frag2_back(&cps_to_string(case.args()))),
+    }
+}
+
 fn main() {
     qvh::quiet_panics();
     let args: Vec<String> = std::env::args().collect();
@@ -1578,6 +1817,7 @@ fn main() {
             "rawsingle" => raw_string(&items[0], "\""),
             "pretty" => pretty_case(&items[0]),
             "frag" => frag_case(&items[0]),
+            "frag2" => frag2_case(&items[0]),
             "comments" => format!(
                 "(comments {})",
                 scan_comments(items[0].atom())
